@@ -178,6 +178,27 @@ META = {
     "C18-map-size-set-after-create-leaks-mapping": ("C18", "map_size stored after the create helper returned; needs the lock semaphore's allocation to fail after mmap - munmap (addr, 0) fails and the mapping stays"),
     "C19-sleep-abstime-keeps-relative-remainder": ("C19", "clock_nanosleep with TIMER_ABSTIME while the EINTR path still copies the (never written) remainder into the request; needs a handled signal during the sleep"),
     "C20-semaphore-new-frees-object-only-on-open-failure": ("C20", "p_semaphore_new releases only the object when the create helper fails; needs sem_open to fail (EACCES, EMFILE) - the platform key string leaks"),
+    # ---- round 9 ----
+    "C01-sync-spinlock-new-raw-malloc": ("C01", "sync spinlock constructor allocates with p_malloc: the lock word is never stored; needs a recycled or uncleared block - a new lock starts out held"),
+    "C02-general-writer-trylock-ignores-readers": ("C02", "general model writer_trylock tests only the writer bits of the active counter; needs a writer trylock while readers hold the lock"),
+    "C03-free-without-cond-destroy": ("C03", "p_cond_variable_free releases the memory without pthread_cond_destroy; needs a free right after the broadcast that woke the last waiters, and the block reused"),
+    "C04-c11-pointer-xor-does-or": ("C04", "c11 pointer_xor calls __atomic_fetch_or; needs an operand sharing a set bit with the word"),
+    "C05-detach-state-compares-with-true": ("C05", "the native detach state is chosen by `joinable == TRUE`; needs a true joinable value other than 1 - the handle joins, the native thread is detached"),
+    "C06-create-depends-on-unlink-result": ("C06", "CREATE on an existing name re-creates only when its own sem_unlink succeeds; needs an owner's free between the exclusive open and the unlink - CREATE fails with ENOENT"),
+    "C07-sysv-unlock-without-undo": ("C07", "System V unlock without SEM_UNDO while lock keeps it; needs a process that used the shm lock to exit - the kernel adds its adjustments and the mutex admits several holders"),
+    "C08-lock-acquire-no-eintr-retry": ("C08", "semaphore acquire (the buffer lock) no longer retries sem_wait on EINTR; needs a handled signal while a buffer operation waits for the lock"),
+    "C09-ealready-mapped-connected-again": ("C09", "EALREADY mapped to CONNECTED; needs a connect re-issued while the first attempt is pending"),
+    "C10-timed-connect-ignores-wait-verdict": ("C10", "blocking connect ignores the result of the writability wait and reads SO_ERROR anyway; needs the wait to time out - success and connected are reported for a pending handshake"),
+    "C11-sha512-padding-boundary-inclusive": ("C11", "SHA-512 finish pads one block when left <= 112; needs a message of length 112 mod 128 - the 0x80 byte is never appended"),
+    "C12-tree-new-raw-malloc-count": ("C12", "p_tree_new_full allocates with p_malloc and never stores nnodes; needs a recycled or uncleared block"),
+    "C13-avl-replace-rewrites-parent-and-factor": ("C13", "AVL insert's replace path shares a tail that stores balance factor 0 and a parent link taken from a variable that starts NULL; needs a replacement on a non-root or leaning node"),
+    "C14-insert-notifies-rejected-pair-on-oom": ("C14", "insert calls the notifiers on the pair it was given when the node allocation fails; needs that allocation to fail on a tree with notifiers"),
+    "C15-bucket-sum-in-int-again": ("C15", "the bucket function adds 37 in int before widening (the earlier fix reverted); needs a key whose low word is within 36 of INT_MAX and an overflow observer"),
+    "C16-line-clamp-off-by-one": ("C16", "the line clamps cut at index MAX - 1 under `>=`; needs a line of exactly 1024 bytes"),
+    "C17-any-loopback-constructors-raw-malloc": ("C17", "new_any / new_loopback allocate with p_malloc and never store flowinfo and scope_id; needs IPv6 and a dirty heap block"),
+    "C18-semaphore-create-handle-key-check-dropped": ("C18", "the argument check of pp_semaphore_create_handle removed; needs the key derivation's allocation to fail - sem_open (NULL)"),
+    "C19-poll-restart-count-bounded": ("C19", "the poll EINTR retry gives up after 16 restarts; needs 17 handled signals during one blocking wait"),
+    "C20-sem-created-from-flag-bits": ("C20", "sem_created = open_flags & O_CREAT (64, not TRUE) while the clean-up unlinks only for == TRUE; needs CREATE on an existing name, then free without take_ownership - the name stays"),
 }
 
 
